@@ -245,7 +245,22 @@ func runCase(c *tcase) map[string]any {
 	return map[string]any{"id": c.ID, "paths": paths, "nwant": len(want)}
 }
 
+// after two stalls in this process the wait is cut to one second: a stall that repeats is systematic, and every
+// further case would otherwise cost the full deadline
+var stalls int
+
 func within(d time.Duration, f func()) bool {
+	if stalls >= 2 {
+		d = time.Second
+	}
+	ok := within1(d, f)
+	if !ok {
+		stalls++
+	}
+	return ok
+}
+
+func within1(d time.Duration, f func()) bool {
 	done := make(chan struct{})
 	go func() { defer close(done); f() }()
 	select {
@@ -265,6 +280,13 @@ func main() {
 			return err
 		}
 		n++
+		if stalls >= 5 {
+			// this process has met five scrapes that never returned: the rest of its share is not tried (each would
+			// cost another deadline and leave another goroutine holding a lock); the stalls themselves were reported
+			skip := map[string]any{"verdict": "none", "bad": []string{"not tried: five earlier scrapes in this process never returned"}}
+			vh.Out(map[string]any{"id": c.ID, "paths": map[string]any{"metrics": skip, "write": skip}, "nwant": 0, "skipped": true})
+			return nil
+		}
 		vh.Out(runCase(&c))
 		return nil
 	})
